@@ -19,42 +19,55 @@ package firmwaremanagement
 //@   modifies nothing
 //@ func (*PackageVersionAnsPayload).UnmarshalBinary
 //@   props C09 C10
+//@   inline
 //@   modifies *p
 //@ func (*DevVersionReqPayload).UnmarshalBinary
 //@   props C09 C10
+//@   inline
 //@   modifies *p
 //@ func (*DevVersionAnsPayload).UnmarshalBinary
 //@   props C09 C10
+//@   inline
 //@   modifies *p
 //@ func (*DevRebootTimeReqPayload).UnmarshalBinary
 //@   props C09 C10
+//@   inline
 //@   modifies *p
 //@ func (*DevRebootTimeAnsPayload).UnmarshalBinary
 //@   props C09 C10
+//@   inline
 //@   modifies *p
 //@ func (*DevRebootCountdownReqPayload).UnmarshalBinary
 //@   props C09 C10
+//@   inline
 //@   modifies *p
 //@ func (*DevRebootCountdownAnsPayload).UnmarshalBinary
 //@   props C09 C10
+//@   inline
 //@   modifies *p
 //@ func (*DevUpgradeImageReqPayload).UnmarshalBinary
 //@   props C09 C10
+//@   inline
 //@   modifies *p
 //@ func (*DevUpgradeImageAnsPayload).UnmarshalBinary
 //@   props C09 C10
+//@   inline
 //@   modifies *p
 //@ func (*DevDeleteImageReqPayload).UnmarshalBinary
 //@   props C09 C10
+//@   inline
 //@   modifies *p
 //@ func (*DevDeleteImageAnsPayload).UnmarshalBinary
 //@   props C09 C10
+//@   inline
 //@   modifies *p
 //@ func (*Command).UnmarshalBinary
 //@   props C09 C10
+//@   inline
 //@   modifies *c
 //@ func (Command).Size
 //@   props C09
+//@   inline
 //@   modifies nothing
 //@   requires typed-nil: c.Payload != nil ==> as_nonnil(c.Payload)
 //@   ensures positive: result >= 1
